@@ -136,7 +136,15 @@ type OwnPodsAndNodes struct{ D *Decisions }
 func (m OwnPodsAndNodes) Key() string { return m.D.Key() }
 func (m OwnPodsAndNodes) AfterScan(ctx *h.ScanCtx) []h.Violation {
 	var out []h.Violation
-	for _, v := range m.D.AfterScan(ctx) {
+	inner := m.D.AfterScan(ctx)
+	for k, on := range ctx.H.SlotFlags {
+		if on && strings.HasPrefix(k, "describe-omits:") {
+			// this scan's refresh answer left a cloud group out: the provider legitimately works on what
+			// it had cached, which the reference (computed on the cloud as it is) does not model
+			return nil
+		}
+	}
+	for _, v := range inner {
 		if strings.Contains(v.Sig, "float-equality") {
 			continue
 		}
